@@ -94,6 +94,7 @@ type bufRun struct {
 	audOK     bool // the auditor read every value
 	pos       map[Val]int
 	single    bool // one producer only
+	quiesced  int64 // stamp of the first quiescent instant of finish() (0 before)
 	huge      bool // one producer puts a batch of a few thousand values (forced-trim modes without an auditor)
 }
 
@@ -137,7 +138,7 @@ func newBufRun(mode bufMode) *bufRun {
 		case 1, 2:
 			r.cleaner = "fixed"
 			r.max = simrt.DrawRange(1, 6)
-			r.target = simrt.DrawRange(0, r.max)
+			r.target = simrt.DrawRange(-2, r.max) // a negative target asks for more than everything
 		case 3:
 			r.cleaner = "adversarial"
 		}
@@ -196,8 +197,10 @@ func (r *bufRun) producers(maxProd int) {
 	}
 	plans := make([]plan, nProd)
 	hugeAt := -1
+	hugeAll := false // every batch of that producer is huge: a backlog of 10-20 thousand values, a backing array to match
 	if r.huge {
 		hugeAt = simrt.Draw(nProd)
+		hugeAll = simrt.Chance(1, 2)
 	}
 	midAt := -1
 	if !r.huge && simrt.Chance(1, 25) {
@@ -215,7 +218,7 @@ func (r *bufRun) producers(maxProd int) {
 				n = simrt.DrawRange(260, 600)
 				simrt.Probe("mid_batch")
 			}
-			if p == hugeAt && k == 1 {
+			if p == hugeAt && (k == 1 || hugeAll) {
 				// one very large batch: sizes around internal thresholds nobody thought of testing
 				n = []int{1030, 1300, 4200, 5200}[simrt.Draw(4)] + simrt.Draw(50)
 				simrt.Probe("huge_batch")
@@ -365,6 +368,14 @@ func (r *bufRun) get(k *bufCons, cancelAfter int) *bufOp {
 	if err != nil {
 		op.ok = false
 		op.ctxErr = (cancelled || r.stopInv != 0) && (err == context.Canceled)
+		if op.ctxErr && !cancelled && r.quiesced != 0 && op.inv < r.quiesced && !k.shared {
+			// this Get was still blocked when everything had gone quiet and was only released by the
+			// harness's stop: legitimate while it waited for a value that might yet be put, not when its
+			// next value had already been evicted (nothing else has touched this consumer since)
+			if d, known := r.b.Diff(k.c); known && d > r.b.Size() {
+				simrt.Failf(r.mode.prop+".lagging-get-blocked", "consumer %d: its Get was still blocked when everything had gone quiet, although its next value had been evicted (Diff()=%d > Size()=%d): a consumer that has fallen behind gets an error from every Get, it does not wait", k.id, d, r.b.Size())
+			}
+		}
 		return op
 	}
 	v, ok := asVal(x)
@@ -460,6 +471,9 @@ func (r *bufRun) finish() bool {
 	if simrt.Failed() {
 		return false
 	}
+	// (a Get still blocked now, although its next value has been evicted, is flagged by get() itself when the
+	// stop below releases it: see quiesced)
+	r.quiesced = simrt.Stamp()
 	r.stopInv = simrt.Stamp()
 	r.stopFn()
 	simrt.Quiesce(-1)
